@@ -134,7 +134,10 @@ def _in_fork(fn, hard_s: float):
 def _run_chunk(modname: str, tier: str, base: int, start: int, end: int, hard_s: float, keep_digests: bool) -> dict:
     mod = _MOD
     assert mod is not None and mod.__name__ == modname
-    faulthandler.dump_traceback_later(hard_s + 30, exit=True)
+    # watchdog for the chunk as a whole.  Where every run has its own fork (and its own alarm) the
+    # chunk may legitimately take many times one run's limit on a loaded machine: allow for it
+    per_run = getattr(mod, "ISOLATE", "chunk") == "run"
+    faulthandler.dump_traceback_later(max(hard_s + 30, (end - start) * 30 if per_run else 0), exit=True)
     try:
         def one(i: int) -> dict:
             s = seeds.run_seed(base, mod.PROPERTY, tier, i)
